@@ -1,5 +1,5 @@
 """icontract/_represent.py: which values are shown, in which order, through which repr (C20; message content C07)."""
-import ast
+import ast, os
 import z3
 
 from pyvc.base import V, NONE, TRUE, FALSE, I, B, SeqI, T_DICT, T_LIST, T_OBJ, ISINST, clsref, objref, fresh, vbool, TY, field_sort, qforall
@@ -152,6 +152,22 @@ class ReprValues(FnSpec):
         def __init__(self, spec):
             self.spec = spec
 
+        def source(self, ex, st, it):
+            """The inputs tuple and each pair in it existed when the collecting stage returned (assumed, python.heap_closed):
+            name them, so that reads through them skip the lists this function allocated afterwards."""
+            bound, n = st.ghost.get("closed_ctr", (self.spec.pre_ctr, 0))
+            tup = fresh("inputs")
+            st.assume(tup == it.t)
+            st.mark_before(tup, n, bound)
+            seq = lst(st, tup)
+
+            def binder(ex, s, i):
+                pair = fresh("pair")
+                s.assume(pair == seq[i])
+                s.mark_before(pair, n, bound)
+                return V("ref", pair, "tuple")
+            return seq, binder
+
         def modifies(self, c):
             return [("list", c.st.vars["writing"].t)]
 
@@ -191,6 +207,7 @@ class ReprValues(FnSpec):
     def setup(self, ex, st, a):
         bind_rw(st.copy())
         self.a, self.ar = a, a["a_repr"].t
+        self.pre_ctr = st.ctr
         self.walk = fresh("ghost_walk", SeqEv)
         self.n_sorted = 0
         self.r1dom = z3.K(I, z3.BoolVal(False))
@@ -212,6 +229,7 @@ class ReprValues(FnSpec):
         d = ex.new_dict(st, dom=fresh("collected_dom", z3.ArraySort(I, B)), val=fresh("collected_val", z3.ArraySort(I, I)), order=fresh("collected_ord", SeqI))
         st.put("attr:reprs", o, d.t)
         st.ghost["r1dom"] = dom(st, d.t)  # path-local: what the first stage collected
+        st.ghost["closed_ctr"] = (st.ctr, len(st.allocs))
         return [(st, V("ref", o, "stage1_collect"))]
 
     def stage1_visit(self, ex, st, node, recv, args, kwargs):
@@ -253,8 +271,14 @@ class ReprValues(FnSpec):
                 # not covered by this proof: the example block of a failing all(<generator>) (FirstExceptionInAll values);
                 # the expression replay family exercises it (bounded)
                 kk = z3.Int("k!fe")
-                s.assume(qforall([kk], z3.Not(ISINST(z3.Select(val(s, reprs), kk), FEIA)), patterns=[z3.Select(val(s, reprs), kk)]))
-                REG.assumptions.add("repr_values: no shown value is a FirstExceptionInAll (the all()-example block is outside the proof, bounded by replay)")
+                # Python: whatever is reachable from an existing dict exists already (older than anything allocated from here on)
+                jj = z3.Int("j!fe")
+                vk = z3.Select(val(s, reprs), kk)
+                # (bound: the allocation counter when the collecting stage returned, or at entry when there was none)
+                bound = s.ghost.get("closed_ctr", (self.pre_ctr, 0))[0]
+                s.assume(qforall([kk], z3.And(vk < bound, attr(s, vk, "inputs") < bound), patterns=[z3.Select(val(s, reprs), kk)]))
+                s.assume(qforall([kk, jj], z3.And(lst(s, attr(s, vk, "inputs"))[jj] < bound, lst(s, lst(s, attr(s, vk, "inputs"))[jj])[1] < bound)))
+                REG.assumptions.add("python.heap_closed: the values shown, their inputs tuples and the pairs in them existed when the collecting stage returned (or at entry)")
         return out
 
     def repr_call(self, ex, st, node, recv, args, kwargs):
